@@ -393,6 +393,27 @@ example :
     ((tm.run [.tick, .tick, .tick, .tick, .tick, .tick]).tasks.all (fun t => t.done)) = true ∧
     ((tm.run [.tick, .tick, .tick, .tick, .tick, .tick]).log.filter isRun).length = (tm.log.filter isRun).length := by decide
 
+/-- **self_unload_does_not_wait_for_itself** — `shutdown_task_manager` called from inside one of the manager's own tasks
+    (a self-unloading overlay) does not wait for the task it runs in; everything else — cancellation of all tracked tasks,
+    including the caller's own, the flag, `Quiet` — is as for a shutdown from outside (the theorems above cover the op
+    `shutdownFrom` as they quantify over all `TOp`s). -/
+theorem self_unload_does_not_wait_for_itself (tm : TM) (n id : Nat) (h : lookupN tm.map n = some id) :
+    id ∉ (tm.shutdownFrom n).awaiting ∧ (tm.shutdownFrom n).tasks = tm.shutdownOp.tasks := by
+  refine ⟨?_, (shutdownFrom_fields tm n).1⟩
+  unfold TM.shutdownFrom
+  simp only [h]
+  intro hm
+  have := (List.mem_filter.mp hm).2
+  simp at this
+
+/-- a task that shuts its own manager down: the shutdown returns as soon as the OTHER tracked tasks have finished, the
+    calling task itself ends (cancelled) in the next pass, nothing runs afterwards -/
+example :
+    let tm := (({ } : TM).run [.reg 1 { kind := .long }, .reg 2 { kind := .interval, delay := 0, ivl := 1 }, .pass,
+                                .shutdownFrom 1])
+    tm.shutdownReturned = false ∧ tm.pass.shutdownReturned = true ∧ (tm.pass.tasks.all (fun t => t.done)) = true ∧
+    ((tm.run [.tick, .tick]).log.filter isRun).length = (tm.log.filter isRun).length := by decide
+
 /-- once every task has finished as well, nothing at all is logged any more (not even `fin`) -/
 theorem dead_stays_dead (tm : TM) (h : Dead tm) (ops : List TOp) :
     Dead (tm.run ops) ∧ (tm.run ops).tasks = tm.tasks ∧ (tm.run ops).log = tm.log := by
